@@ -1088,15 +1088,20 @@ func (ob *SuObject) BinarySearch2(th *Thread, value, lt Value) int {
 			ob.RUnlock()
 		}
 	}()
-	defer ob.clockCheck(ob.clock, "BinarySearch")
+	clock := ob.clock
+	defer ob.clockCheck(clock, "BinarySearch")
 	list := ob.list
 	return sort.Search(len(list), func(i int) bool {
+		// list must only be accessed while locked and unmodified
+		// (after a modification it may be shared with a copy-on-write copy)
+		ob.clockCheck(clock, "BinarySearch")
+		x := list[i]
 		if locked {
 			ob.RUnlock() // can't hold lock while calling arbitrary code
 			locked = false
 		}
 		defer func() { locked = ob.RLock() }()
-		return True != th.Call(lt, list[i], value)
+		return True != th.Call(lt, x, value)
 		// note: could become concurrent during lt
 	})
 }
